@@ -105,6 +105,13 @@ func (d *deepCopier) deepCopyIface(in, out reflect.Value) {
 		if inElem.IsNil() {
 			return
 		}
+		if mv, ok := d.mapMap[inElem.Pointer()]; ok {
+			// We've seen this map before (or are in the middle of copying
+			// it): reuse the copy so shared maps stay shared and
+			// reference-cycles terminate.
+			out.Set(mv)
+			return
+		}
 		out.Set(reflect.MakeMapWithSize(inElem.Type(), inElem.Len()))
 		d.deepCopy(inElem, out.Elem())
 		return
